@@ -65,7 +65,8 @@ def create_single_letter_matches(plain, cmdline):
                 return True
         return False
     single = r'\b[^\W0-9_]\b'
-    return list(msg(m) for m in re.finditer(single, plain) if not f(m))
+    return list(msg(m) for m in re.finditer(single, plain)
+                        if m.group(0).isalpha() and not f(m))
 
 #   create error messages for problem with equation punctuation
 #
